@@ -54,6 +54,15 @@ func c01Payload(shape string, pos int) []byte {
 		p[0] = UnknownMark
 		return p
 	}
+	if shape == "R" || shape == "Z" {
+		// the most redundant message there is: 4 MiB of one byte value (a zero-filled bytes
+		// field, a sparse bitmap); DEFLATE shrinks it by about three orders of magnitude
+		fill := byte(0)
+		if shape == "R" {
+			fill = byte(0x61 + pos)
+		}
+		return bytes.Repeat([]byte{fill}, 4<<20)
+	}
 	return Payload(c01Shapes[shape], byte(0x41+pos*16+len(shape)))
 }
 
@@ -141,6 +150,10 @@ func c01Batch(cfg Cfg, thorough bool) []c01Case {
 	if !thorough && !cfg.JSON && cfg.ReqMode == memhttp.ReqEager && cfg.HTTP == 2 && cfg.Comp == CompDefault {
 		// one message above the 8 MiB recycle cap at each position of a length-2 sequence
 		seqs = append(seqs, []string{"G+", "z"}, []string{"a", "G+"})
+	}
+	if !cfg.JSON && cfg.ReqMode == memhttp.ReqEager && cfg.HTTP == 2 && (cfg.Comp == CompDefault || cfg.Comp == CompSendGzip) {
+		// highly redundant messages, compressed in the response (default) or in both directions
+		seqs = append(seqs, []string{"R"}, []string{"a", "Z"}, []string{"R", "z", "Z"})
 	}
 	// messages carrying fields their Go type does not declare, first, after and around others
 	seqs = append(seqs, []string{"u"}, []string{"a", "u"}, []string{"u", "z", "u"})
